@@ -112,8 +112,9 @@ def scenario_projects() -> List[Dict[str, Any]]:
     ], [])
     # reStructuredText footnote: docutils writes the back-link without going through pydoctor's starttag()
     add("rst-footnote", [
-        U("fn", "\"\"\"\nText with a footnote [1]_ and a `reference <fn.f>`_.\n\n.. [1] The note.\n\"\"\"\n"
-                "__docformat__ = 'restructuredtext'\ndef f():\n    \"\"\"Section\n    =======\n\n    body, see `fn`.\n    \"\"\"\n"),
+        U("fn", "\"\"\"\nText with a footnote [1]_.\n\n.. [1] The note.\n\"\"\"\n"
+                "__docformat__ = 'restructuredtext'\ndef f():\n    \"\"\"Summary line.\n\n    Section\n    =======\n\n    body\n    \"\"\"\n"
+                "class K:\n    \"\"\"Title\n    =====\n\n    Sub\n    ---\n\n    text\n    \"\"\"\n"),
     ], [])
     # a re-exported function keeps the linker (and its page) of the module it was defined in
     add("reexported-function-context", [
